@@ -40,6 +40,8 @@ class Box(typing.Generic[T]):
 class NoHints:
     def __init__(self, *a, **k):
         pass
+type RecTree = list[RecTree] | int
+type RecDict = dict[str, RecDict | int]
 AliasT = typing.TypeAliasType("AliasT", T)
 NewT = typing.NewType("NewT", T)
 NewTB = typing.NewType("NewTB", TB)
@@ -64,6 +66,7 @@ ATOMS = [
     ("type_int", "type[int]", "pass"), ("Type_DC", "typing.Type[DC]", "pass"),
     ("Box", "Box", "box"), ("Box_int", "Box[int]", "build"), ("NoHints", "NoHints", "build"),
     # a type variable hidden behind a wrapper
+    ("RecTree", "RecTree", "rec"), ("RecDict", "RecDict", "rec"),
     ("Final_T", "typing.Final[T]", "pass"), ("AliasT", "AliasT", "pass"), ("NewT", "NewT", "pass"), ("NewTB", "NewTB", "conv"), ("GenDC", "GenDC", "gendc"),
 ]
 E8 = ["int", "DC", "Any", "object", "list", "T", "Callable1", "Box_int"]
@@ -119,6 +122,10 @@ def probe(t, ns, S):
                 return frozenset({S}), frozenset({S}), frozenset({S}), [S]
         if kind == "box":
             return {"item": S}, ns["Box"](S), ns["Box"](S), {"item": S}
+        if name == "RecTree":
+            return [["7"], "7"], [[7], 7], [[7], 7], [[7], 7]
+        if name == "RecDict":
+            return {"k": {"n": "7"}, "n": "7"}, {"k": {"n": 7}, "n": 7}, {"k": {"n": 7}, "n": 7}, {"k": {"n": 7}, "n": 7}
         if kind == "gendc":
             return {"item": S, "n": "7"}, ns["GenDC"](S, 7), ns["GenDC"](S, 7), {"item": S, "n": 7}
         raise Unjudged(name)
